@@ -11,4 +11,12 @@ ObsFinalOK(proc, ndets) == proc = Ids(ndets)
 \* C13: the saved stream is always a prefix of the blocks read, and all of them once the writer has ended
 FilePrefixOK(file, blocks) == IsPrefix(file, blocks)
 FileFinalOK(file, blocks, closed) == file = blocks /\ closed
+\* X03 (beyond the list): the processing log.  An entry is <<who, id>>: who = 0 is the tokenizer worker's own "[DET]" line, who = o >= 1
+\* the "[SAVE]" / "[PLAY]" / "[COMMAND]" line of observer o.  Every line of an observer comes after the tokenizer's line for the same
+\* detection; the tokenizer's lines are 1, 2, 3, ... and each logging observer's lines are exactly what it processed, in order.
+RECURSIVE LogProj(_, _)
+LogProj(log, w) == IF log = <<>> THEN <<>> ELSE IF Head(log)[1] = w THEN <<Head(log)[2]>> \o LogProj(Tail(log), w) ELSE LogProj(Tail(log), w)
+LogCausalOK(log) == \A i \in 1..Len(log) : log[i][1] # 0 => \E j \in 1..(i - 1) : log[j] = <<0, log[i][2]>>
+LogOK(log, ndets, procs, loggers) == /\ LogCausalOK(log) /\ LogProj(log, 0) = Ids(ndets)
+                                     /\ \A o \in loggers : LogProj(log, o) = procs[o]
 =============================================================================
